@@ -7,14 +7,14 @@ namespace vh {
 
 // Run the model through analyse -> generate -> run for both profiles and compare with the reference.
 // `labels[qi]` = structural label of quantity qi used in violation keys ("" = use the kind).
-void judgeModel(Ctx &ctx, const std::string &prop, const SemModel &m, const ModelPtr &model, const std::string &text, const std::vector<std::string> &labels, const std::vector<SemPoint> &points, const std::string &caseTag, Judged &jd)
+void judgeModel(Ctx &ctx, const std::string &prop, const SemModel &m, const ModelPtr &model, const std::string &text, const std::vector<std::string> &labels, const std::vector<SemPoint> &points, const std::string &caseTag, Judged &jd, const JudgeExternals *ext)
 {
     stage("analyse " + caseTag);
-    auto analyser = Analyser::create();
+    auto analyser = ext != nullptr && ext->analyser != nullptr ? ext->analyser : Analyser::create();
     analyser->analyseModel(model);
     monitorLogger(*analyser, "Analyser::analyseModel", text);
     auto am = analyser->model();
-    bool expectOde = m.voi >= 0;
+    bool expectOde = m.voi >= 0 && !stateQuantities(m).empty();
     bool expectNla = !m.nla.empty();
     std::string wantType = expectOde ? (expectNla ? "dae" : "ode") : (expectNla ? "nla" : "algebraic");
     std::string gotType = am != nullptr ? AnalyserModel::typeAsString(am->type()) : "null";
@@ -92,6 +92,44 @@ void judgeModel(Ctx &ctx, const std::string &prop, const SemModel &m, const Mode
         }
         spec.pointStates.push_back(sv);
     }
+    // external variables: the callback returns the planted value (converted to the primary variable's units) and logs
+    // the current values of the declared dependencies
+    std::map<size_t, int> extIndexToQ;
+    if (ext != nullptr) {
+        std::map<int, std::pair<char, size_t>> whereIs; // quantity -> ('s'|'v', index)
+        for (size_t i = 0; i < am->stateCount(); ++i) {
+            if (stateQ[i] >= 0) {
+                whereIs[stateQ[i]] = {'s', i};
+            }
+        }
+        std::map<int, double> scaleOfQ;
+        for (size_t i = 0; i < am->variableCount(); ++i) {
+            double sc = 1.0;
+            int qi = quantityOf(am->variable(i), sc);
+            if (qi >= 0) {
+                whereIs[qi] = {'v', i};
+                scaleOfQ[qi] = sc;
+            }
+        }
+        for (size_t qi = 0; qi < m.q.size(); ++qi) {
+            if (m.q[qi].kind != QKind::EXTERNAL || whereIs.count(static_cast<int>(qi)) == 0U) {
+                continue;
+            }
+            size_t idx = whereIs[static_cast<int>(qi)].second;
+            spec.hasExternals = true;
+            spec.externalValues[idx] = m.q[qi].init * m.q[qi].inst[0].scale / scaleOfQ[static_cast<int>(qi)];
+            extIndexToQ[idx] = static_cast<int>(qi);
+            auto d = ext->deps.find(static_cast<int>(qi));
+            if (d != ext->deps.end()) {
+                for (int dq : d->second) {
+                    if (whereIs.count(dq) != 0U) {
+                        spec.externalDeps[idx].push_back(whereIs[dq]);
+                    }
+                }
+            }
+        }
+        spec.hasExternals = spec.hasExternals || am->hasExternalVariables();
+    }
     std::string wd = scratchDir() + "/run_" + std::to_string(ctx.index);
     stage("run-c " + caseTag);
     CodeRun rc = runGeneratedC(cIface, cImpl, spec, wd);
@@ -112,6 +150,86 @@ void judgeModel(Ctx &ctx, const std::string &prop, const SemModel &m, const Mode
         }
     }
     std::set<std::string> reported;
+    if (ext != nullptr) {
+        for (int profile = 0; profile < 2; ++profile) {
+            const CodeRun &run = profile == 0 ? rc : rp;
+            const char *pn = profile == 0 ? "C" : "Python";
+            if (!run.ok) {
+                continue;
+            }
+            int point = -1; // -1 = initialiseVariables phase
+            std::map<size_t, int> callsAtPoint;
+            SemEval ev = evaluateSem(m, points[0]);
+            auto closePoint = [&]() {
+                if (point < 0) {
+                    return;
+                }
+                for (const auto &kv : extIndexToQ) {
+                    if (callsAtPoint[kv.first] == 0) {
+                        viol(prop, std::string("ext-callback-not-called:") + pn, "variables[" + std::to_string(kv.first) + "] is external but the callback was not invoked for it at point " + std::to_string(point), replay);
+                    }
+                }
+            };
+            for (const auto &line : run.externalCalls) {
+                if (line.rfind("POINT", 0) == 0) {
+                    closePoint();
+                    point = atoi(line.substr(6).c_str());
+                    callsAtPoint.clear();
+                    ev = evaluateSem(m, points[static_cast<size_t>(std::min<int>(point, static_cast<int>(points.size()) - 1))]);
+                    continue;
+                }
+                std::stringstream ls(line);
+                std::string tok;
+                ls >> tok; // EXT
+                size_t idx = 0;
+                ls >> idx;
+                stat("external_callback_invocations");
+                ++callsAtPoint[idx];
+                if (line.find("UNEXPECTED") != std::string::npos || extIndexToQ.count(idx) == 0U) {
+                    viol(prop, std::string("ext-callback-for-non-external-index:") + pn, line, replay);
+                    continue;
+                }
+                // declared dependencies hold their current value
+                size_t k = 0;
+                auto depsOf = spec.externalDeps.find(idx);
+                while (ls >> tok) {
+                    size_t eq = tok.find('=');
+                    if (eq == std::string::npos || depsOf == spec.externalDeps.end() || k >= depsOf->second.size()) {
+                        break;
+                    }
+                    double got = strtod(tok.substr(eq + 1).c_str(), nullptr);
+                    auto dep = depsOf->second[k++];
+                    // which quantity is that?
+                    int dq = -1;
+                    double sc = 1.0;
+                    if (dep.first == 's') {
+                        dq = stateQ[dep.second];
+                        sc = stateScale[dep.second];
+                    } else {
+                        dq = quantityOf(am->variable(dep.second), sc);
+                    }
+                    if (dq < 0 || !ev.value[static_cast<size_t>(dq)].ok) {
+                        continue;
+                    }
+                    Val ref = ev.value[static_cast<size_t>(dq)];
+                    double f = m.q[static_cast<size_t>(dq)].inst[0].scale / sc;
+                    ref.v *= f;
+                    ref.e = ref.e * std::fabs(f) + 4.0 * ulpOf(ref.v);
+                    stat("external_dependency_values_checked");
+                    if (!consistent(ref, got)) {
+                        std::string phase = point < 0 ? "initialise" : "compute";
+                        std::string key = std::string("ext-callback-before-dependency:") + pn + ":" + phase + ":" + qkindName(m.q[static_cast<size_t>(dq)].kind);
+                        if (reported.insert(key).second) {
+                            char buf[300];
+                            snprintf(buf, sizeof buf, "callback for variables[%zu] invoked (%s phase, point %d) while declared dependency %s holds %.17g instead of %.17g", idx, phase.c_str(), point, m.q[static_cast<size_t>(dq)].inst[0].name.c_str(), got, ref.v);
+                            viol(prop, key, buf, replay);
+                        }
+                    }
+                }
+            }
+            closePoint();
+        }
+    }
     for (int profile = 0; profile < 2; ++profile) {
         const CodeRun &run = profile == 0 ? rc : rp;
         const char *pn = profile == 0 ? "C" : "Python";
